@@ -209,7 +209,10 @@ def write_bams(sc, genome, outdir, prefix="reads", order=None):
     for fi in range(nfiles):
         recs = [(k, r) for k, r in enumerate(sc["reads"]) if r.get("file", 0) == fi]
         tie = order or (lambda k, r: k)
+        # an unmapped record may be "placed" (RNAME/POS set, SAM specification 1.4: unmapped mates, reads hanging over
+        # a reference end): it sorts with the mapped records of that position
         recs.sort(key=lambda kr: ((idx[kr[1]["c"]], kr[1]["p"]) if kr[1].get("c") is not None
+                                  else (idx[kr[1]["placed"][0]], kr[1]["placed"][1]) if kr[1].get("placed")
                                   else (len(names), 0), tie(kr[0], kr[1])))
         path = os.path.join(outdir, (fnames[fi] if fnames else "%s%d.bam" % (prefix, fi)))
         with pysam.AlignmentFile(path, "wb", header=header) as out:
@@ -218,8 +221,8 @@ def write_bams(sc, genome, outdir, prefix="reads", order=None):
                 a.query_name = r["n"]
                 a.flag = r["f"]
                 if r.get("c") is None:
-                    a.reference_id = -1
-                    a.reference_start = -1
+                    a.reference_id = idx[r["placed"][0]] if r.get("placed") else -1
+                    a.reference_start = r["placed"][1] if r.get("placed") else -1
                     a.mapping_quality = 0
                     a.query_sequence = r.get("seq") or "ACGTACGTAC"
                 else:
